@@ -544,8 +544,89 @@ func c18Refs(c *Ctx) {
 		c.R.Check(wholePath && !splits, "R-ref-unique", "type name in "+fname(fn), c.Pos(fn.Pos()), "name includes the whole package path",
 			sprintf("%s names a type by the LAST element of its package path plus its name: two types a/x.T and b/x.T share one $defs entry", fname(fn)))
 	}
+	// every name a naming function returns is computed from the type it names (its name and path, its address, its
+	// string form): a name taken from anything else — the declaring field, a counter — is shared by different types
+	for _, fn := range sortedFuncs(namers) {
+		var tp *ssa.Parameter
+		for _, p := range fn.Params {
+			if isReflectType(p.Type()) {
+				tp = p
+			}
+		}
+		if tp == nil {
+			continue
+		}
+		nRet := 0
+		ir.EachInstr(fn, func(b *ssa.BasicBlock, _ int, in ssa.Instruction) {
+			r, ok := in.(*ssa.Return)
+			if !ok || b == fn.Recover || len(ir.Results(r)) != 1 {
+				return
+			}
+			nRet++
+			c.R.Check(derivesFromValue(ir.Results(r)[0], tp, 0), "R-ref-unique", sprintf("name returned by %s #%d is computed from the type", fname(fn), nRet), c.Pos(r.Pos()),
+				"the returned name is built from the named type",
+				sprintf("%s returns a $defs name that is not computed from the type it names: two different types (e.g. two anonymous structs declared under equally named fields) get one $defs entry and every $ref to the first resolves to the second", fname(fn)))
+		})
+	}
 	c.R.Min("R-ref-escape", 1)
-	c.R.Min("R-ref-unique", 1)
+	c.R.Min("R-ref-unique", 3)
+}
+
+// derivesFromValue: v is computed from src on every path (through concatenation, formatting, method calls on src,
+// conversions; a phi needs every edge to derive).
+func derivesFromValue(v, src ssa.Value, d int) bool {
+	if v == src {
+		return true
+	}
+	if d > 8 || v == nil {
+		return false
+	}
+	switch x := v.(type) {
+	case *ssa.BinOp:
+		return derivesFromValue(x.X, src, d+1) || derivesFromValue(x.Y, src, d+1)
+	case *ssa.Phi:
+		for _, e := range x.Edges {
+			if !derivesFromValue(e, src, d+1) {
+				return false
+			}
+		}
+		return len(x.Edges) > 0
+	case *ssa.MakeInterface:
+		return derivesFromValue(x.X, src, d+1)
+	case *ssa.ChangeInterface:
+		return derivesFromValue(x.X, src, d+1)
+	case *ssa.ChangeType:
+		return derivesFromValue(x.X, src, d+1)
+	case *ssa.Convert:
+		return derivesFromValue(x.X, src, d+1)
+	case *ssa.Extract:
+		return derivesFromValue(x.Tuple, src, d+1)
+	case *ssa.UnOp:
+		if ia, ok := x.X.(*ssa.IndexAddr); ok {
+			return derivesFromValue(ia.X, src, d+1)
+		}
+		return derivesFromValue(x.X, src, d+1)
+	case *ssa.Slice:
+		if els := variadicElems(x); len(els) > 0 {
+			for _, e := range els {
+				if e != nil && derivesFromValue(e, src, d+1) {
+					return true
+				}
+			}
+			return false
+		}
+		return derivesFromValue(x.X, src, d+1)
+	case *ssa.Call:
+		if x.Call.IsInvoke() && derivesFromValue(x.Call.Value, src, d+1) {
+			return true
+		}
+		for _, a := range x.Call.Args {
+			if derivesFromValue(a, src, d+1) {
+				return true
+			}
+		}
+	}
+	return false
 }
 
 // ---------------------------------------------------------------- R-path-mirror
